@@ -25,6 +25,8 @@ void     vf_cut(double * p, int64_t n, const char * name);
 void     vf_cutf(float * p, int64_t n, const char * name);
 void     vf_observe_f64(const char * name, double v);
 void     vf_observe_i64(const char * name, int64_t v);
+// fork one path per feasible value of v (engine); identity natively
+int64_t  vf_enum(int64_t v);
 // marks the end of an entry: reachability witness
 void     vf_reach(const char * id);
 // exact-domain helpers: the real pi, and ite without forking
